@@ -55,8 +55,8 @@ _TR_TUS = ['src/Geometry/BiTargetCheckDistance.cpp', 'src/Geometry/ABiTargetChec
 for _nd in (2, 3):
     K('C02.e.%d' % _nd, property='C02', engine='symex', harness='C02/transl.cpp', entries=['k_increment', 'k_check_distance'], tus=_TR_TUS,
       defines={'all': {'VF_ND': _nd}}, symex={'fp_exact': True},
-      bounds={'quick': 'ndim = %d; both points and the translation vector arbitrary integer vectors, |coordinate| <= 2^20; radius an arbitrary integer in [-2^20, 2^20]; '
-                       'anisotropy coefficients each in {1, 2, 4, 8}, no rotation' % _nd},
+      bounds={'quick': 'ndim = %d; both points and the translation vector arbitrary integer vectors, |coordinate| <= 2^20 (increments, distances) / 2^15 (isOK); '
+                       'radius an arbitrary integer in [-2^15, 2^15]; anisotropy coefficients each in {1, 2, 4, 8}, no rotation' % _nd},
       timeout_ms={'quick': 120000, 'thorough': 600000}, validate={'quick': 30, 'thorough': 60}, validate_doubles='int',
       what='C02.e SpacePoint::move / getIncrement / getDistance (ASpaceObject, ASpace, SpaceRN::_move/_getIncrement/_getDistance) and BiTargetCheckDistance::isOK '
            '(+ constructor, _calculateDistance, matrix_product_safe): after translating both points by the same vector with the library\'s move(), '
@@ -64,6 +64,11 @@ for _nd in (2, 3):
            'symmetric; isOK <=> radius >= 0 and sum ((x1-x2)/c)^2 <= radius^2 on the original pair',
       out='non-integer coordinates (rounding of x+t makes increments differ in the last place: translation invariance is exact only where the additions are); '
           'rotated anisotropy (_flagRotation); tensor distances (ASpace::getDistance with a Tensor); spaces other than RN; invariance of the whole kriging output',
-      assumptions=['integer-grid inputs: every +,-,* of the encoded code is exact in IEEE double as well (fp_exact bridge); divisions are by powers of two; '
-                   'sqrt modelled exactly (r >= 0, r*r == x) and only compared with an integer radius'],
+      assumptions=['k_increment: integer-grid inputs, every +,-,* of the encoded code is proved exact in IEEE double by the fp_exact bridge; '
+                   'k_check_distance: real-arithmetic reading; it transfers to IEEE double by this argument (not by the bridge, which does not track dyadic fractions): |x1-x2| <= 2^17 integer, '
+                   'divisions are by 1, 2, 4 or 8, so each (dx/c)^2 is a multiple of 2^-6 below 2^34 and their sum has fewer than 53 significant bits; the correctly rounded sqrt of it is compared '
+                   'with an integer radius r, and sqrt(s) <= r <=> s <= r^2 survives correct rounding',
+                   'sqrt modelled exactly (r >= 0, r*r == x)'],
       stubs=['ASpaceObject(const ASpace*) -> keeps the pointer instead of cloning the space; ~ASpaceObject -> does not delete it'])
+
+CLAIMS['C02'] += ' Also decided (C02.e): increments, distances and the neighbourhood distance test of a pair of points are unchanged when both points are translated by the same integer vector.'
